@@ -89,10 +89,35 @@ def mode_order_rules(ctx):
         fn = F.fn(pat)
         ctx.analysed_fn(fn)
         bad = [M.short_name(M.call_name(t)) for bb, t in fn.calls(ORDER_BREAKERS)]
-        ex, paths = run_fn(fn, F, Model())
+        ex, paths = run_fn(fn, F, Model(), inline=r"scanner_builder::ScannerBuilder::add_scanner_mode$")
         rp = ret_paths(paths)
         ok = bool(rp) and not bad
         det = "reordering/filtering calls: %s" % bad if bad else ""
+        from .common import loop_sources
+        its = [p for p in paths if any(e[0] == "iter-item" for e in p.events) or any(e[0] == "call" and re.search(r"iter::Iterator>::next$", e[2]) for e in p.events)]
+        if its and arg == "scanner_modes":
+            # element-wise form (a loop, fold, for_each ... over the given slice): every iteration appends its element
+            srcs = sorted(set(s_ for _, s_ in loop_sources(ex, paths)))
+            ok = not bad and bool(srcs) and all(re.search(r"\bscanner_modes\b", s_) and "self" not in s_ for s_ in srcs)
+            det = "iterates over %s" % srcs
+            n_it = 0
+            for p in its:
+                pu = p.calls(r"Vec::<.*ScannerMode>::push$")
+                got = [e for e in p.events if e[0] == "iter-item"] or [c_ for c_, o in p.conds if "item@" in S.fstr(c_)] or [e for e in p.events if e[0] == "write" and "item@" in S.fstr(e[4])]
+                if p.end[0] == "cut" or (got and p.end[0] == "return"):
+                    if not got:
+                        continue
+                    n_it += 1
+                    okp = len(pu) == 1 and "self.scanner_modes" in S.fstr(ex.deref_val(p, pu[0][3][0]) if pu[0][3][0][0] == "ref" else pu[0][3][0]) + S.fstr(pu[0][3][0]).replace("_1.", "self.") and "item@" in S.fstr(ex.deref_val(p, pu[0][3][1]) if pu[0][3][1][0] == "ref" else pu[0][3][1])
+                    if not okp:
+                        ok = False
+                        det = "an iteration appends %s" % [[S.fstr(a)[:60] for a in x[3]] for x in pu]
+            for p in rp:
+                if not S.mentions(p.end[1], lambda x: x == ("sym", "self")):
+                    ok = False
+                    det = "returns %s" % S.fstr(p.end[1])[:80]
+            ctx.ob("C06.i", "builder-appends-in-call-order:" + M.short_name(fn.name), ok and n_it >= 1, det + "; %d iteration path(s) each appending its element to self.scanner_modes" % n_it, fn.loc())
+            continue
         for p in rp:
             c = p.calls(call_rx)
             if not (len(c) == 1 and "self.scanner_modes" in S.fstr(ex.deref_val(p, c[0][3][0]) if c[0][3][0][0] == "ref" else c[0][3][0]) + S.fstr(c[0][3][0]).replace("_1.", "self.") and S.mentions(ex.deref_val(p, c[0][3][1]) if c[0][3][1][0] == "ref" else c[0][3][1], lambda x: x == ("sym", arg))):
